@@ -381,6 +381,44 @@ def border_args(draw):
 
 
 @st.composite
+def long_text_args(draw):
+    """Very long expressions, valid or not, made of multi-byte characters (error messages quote the input): the right
+    exception, never a panic, whatever the length."""
+    unit = draw(st.sampled_from(["é", "営", "–", "x", "🙂", "ß"]))
+    n = draw(st.integers(300, 2300))
+    shift = draw(st.sampled_from(["", "x", "xy", "xyz"]))
+    kind = draw(st.integers(0, 3))
+    if kind == 0:
+        expr = 'Mo-Fr 10:00-12:00 "' + shift + unit * n  # unbalanced quote
+    elif kind == 1:
+        expr = 'Mo-Fr 10:00-12:00 "' + shift + unit * n + '"'  # valid, long comment
+    elif kind == 2:
+        expr = "; ".join(f'{2000 + i} Mo-Fr 10:00-12:00 "ouvert – fermé à midi"' for i in range(draw(st.integers(10, 70)))) + "; " + shift + "§"
+    else:
+        expr = shift + unit * n
+    return dict(expr=expr, timezone=None, country=None, coords=None, auto_country=None, auto_timezone=None, op="state", time=dt.datetime(2024, 5, 1, 11, 0), end=None)
+
+
+@st.composite
+def end_of_time_args(draw):
+    """Windows reaching the last supported instants, with bounds given in zones other than the context's: the end of
+    the supported range is reported as None whatever zone it was asked in."""
+    ctx_zone = draw(st.sampled_from(["Europe/Paris", "Asia/Tokyo", "UTC", "Pacific/Kiritimati", "America/Los_Angeles", None]))
+    coords_ = draw(st.sampled_from([None, (35.68, 139.69)])) if ctx_zone is None else None
+    start = dt.datetime(9999, 12, draw(st.integers(29, 31)), draw(st.integers(0, 15)), draw(st.sampled_from([0, 30, 59])))
+    end = dt.datetime(9999, 12, 31, draw(st.integers(16, 23)), draw(st.sampled_from([0, 30, 59])))
+    za = draw(st.sampled_from([None, "UTC", "America/Los_Angeles", "Pacific/Pago_Pago", "Asia/Tokyo", "Europe/Paris"]))
+    zb = draw(st.sampled_from([None, "UTC", "America/Los_Angeles", "Pacific/Pago_Pago", "Asia/Tokyo", "Europe/Paris"]))
+    if za is not None:
+        start = start.replace(tzinfo=zoneinfo.ZoneInfo(za))
+    if zb is not None:
+        end = end.replace(tzinfo=zoneinfo.ZoneInfo(zb))
+    op = draw(st.sampled_from(["intervals", "intervals", "intervals", "next_change"]))
+    return dict(expr=draw(st.sampled_from(["Mo-Fr 10:00-12:00", "24/7", "Jan-Nov; Dec off", "Mo-Su 00:00-24:00", "22:00-26:00 \"late\"", "Dec 31 unknown"])), timezone=ctx_zone, country=None, coords=coords_,
+                auto_country=None, auto_timezone=None, op=op, time=start, end=end if (op == "intervals" and draw(st.integers(0, 3)) > 0) else None)
+
+
+@st.composite
 def mixed_args(draw):
     """Contexts without zone: start and end naive or aware independently (the result carries the zone of the input)."""
     start = draw(st.datetimes(min_value=dt.datetime(2020, 1, 1), max_value=dt.datetime(2028, 1, 1)))
@@ -401,7 +439,7 @@ def run(tier):
 
     @seed(SEED)
     @settings(max_examples=n_examples, database=None, deadline=None, derandomize=False, suppress_health_check=list(HealthCheck), print_blob=False)
-    @given(args=st.one_of(general_args(), general_args(), general_args(), sun_args(), sun_args(), transition_args(), transition_args(), holiday_args(), mixed_args(), border_args()))
+    @given(args=st.one_of(general_args(), general_args(), general_args(), sun_args(), sun_args(), transition_args(), transition_args(), holiday_args(), mixed_args(), border_args(), long_text_args(), end_of_time_args()))
     def prop(args):
         args = dict(args)
         if args["op"] != "intervals":
@@ -413,6 +451,10 @@ def run(tier):
             label("strategy_dst_transition")
         if args["expr"] in HOLIDAY_EXPRS:
             label("strategy_holidays_country_vs_coords")
+        if len(args["expr"]) > 300:
+            label("strategy_very_long_text")
+        if args["time"] is not None and args["time"].year == 9999 and args["time"].month == 12 and args["time"].day >= 29:
+            label("strategy_last_days_of_9999")
         if args["coords"] is not None and any(tuple(args["coords"]) in (tuple(b["a"]), tuple(b["b"])) for b in BORDERS):
             label("strategy_places_on_both_sides_of_a_border")
         try:
